@@ -2001,8 +2001,8 @@ def correspond(ctx, corr):
         return
     run_pointers(ctx, corr, 2 if not ctx.thorough else 20)
     run_pointer_scaling(ctx, corr, 2 if not ctx.thorough else 40)
-    run_lvalue_oracle(ctx, corr, 1500 if not ctx.thorough else 30000)
-    run_lvalue_nests(ctx, corr, 1500 if not ctx.thorough else 30000)
+    run_lvalue_oracle(ctx, corr, 1500 if not ctx.thorough else 15000)
+    run_lvalue_nests(ctx, corr, 1500 if not ctx.thorough else 15000)
     corr.extra['exhaustive_subspace'] = ('operators x 9x9 operand type pairs x ' + ('all boundary x boundary value pairs' if ctx.thorough else 'sampled boundary/random value pairs') + '; 81 cast pairs and 4 unary operators x all boundary values; every instruction sequence of the model on the CPU')
 
 def search(ctx, broken, corr):
